@@ -348,6 +348,7 @@ class GenCfg:
         decimal_ints: bool = True,    # integral JSON numbers at decimal positions (parse path)
         python_custom: bool = True,   # CompletionItemKind open
         null_params: bool = True,
+        key_order: bool = True,       # the members of objects come in varying order
     ):
         self.max_depth, self.max_nodes = max_depth, max_nodes
         # route: loci to pass through (parent->child chain from the root, see Router);
@@ -358,6 +359,7 @@ class GenCfg:
         self.decimal_ints = decimal_ints
         self.python_custom = python_custom
         self.null_params = null_params
+        self.key_order = key_order
 
 
 class Gen:
@@ -439,6 +441,19 @@ class Gen:
             if p.get("optional"):
                 self.optional_set += 1
             out[p["name"]] = self.type(p["type"], locus, depth + 1, cri)
+        if len(out) > 1 and self.cfg.key_order:
+            # the order of the members of a JSON object carries no meaning: senders sort them, or write optional ones first
+            o = self.draw(st.integers(0, 6))
+            if o == 3:
+                out = dict(reversed(list(out.items())))
+            elif o == 4:
+                out = dict(sorted(out.items()))
+            elif o == 5:
+                names = self.draw(st.permutations(sorted(out)))
+                out = {n: out[n] for n in names}
+            elif o == 6:  # optional members before required ones
+                opt = {p["name"] for p in props if p.get("optional")}
+                out = {**{k: v for k, v in out.items() if k in opt}, **{k: v for k, v in out.items() if k not in opt}}
         return S(key, out)
 
     # -- types ----------------------------------------------------------------------
